@@ -1,11 +1,11 @@
 /-
   C10, resource clause, heap pages — how much tuple data one page can report (helper lemmas for
-  Props/C10/Isolation.lean:C10_size_parsePage_disjoint).
+  Props/C10/Isolation.lean:C10_size_parsePage).
 
-  ParsePage reports, for every accepted NORMAL line pointer, a tuple whose data is a suffix of the pointer's storage.
-  If the storage areas of the accepted pointers are pairwise disjoint (PostgreSQL never overlaps tuples) their lengths add
-  up to at most the 8192 bytes of the page.  Without that hypothesis nothing bounds the sum: n pointers to one tuple report
-  n times its bytes (open finding C10-page-alias).
+  ParsePage reports, for every accepted NORMAL line pointer, a tuple whose data is a suffix of the pointer's storage, and
+  (fix heap/02) it skips a pointer whose storage overlaps the storage of a tuple it has already reported.  So the storage
+  areas of the reported tuples are pairwise disjoint pieces of `[0, 8192)` and their lengths add up to at most the 8192
+  bytes of the page — for every byte string (`parsePage_dataSum_le`).
 -/
 import PgVerif.Proofs.Isolation
 namespace PgVerif.Proofs.PageSize
@@ -63,37 +63,6 @@ def weight (upper : Nat) : List ItemID → Nat
   | it :: rest => (if accepted upper it then it.length else 0) + weight upper rest
 
 def dataSum (ts : List HeapTuple) : Nat := (ts.map fun t => t.data.length).sum
-
-/-- what ParsePage reports weighs no more than the storage of the accepted pointers -/
-theorem collect_weight (data : Bytes) (hd : 8192 ≤ data.length) (upper : Nat) :
-    ∀ (items : List ItemID) (ts : List HeapTuple), collectM (pageItem data upper) items = .ok ts →
-      dataSum ts ≤ weight upper items
-  | [], ts, h => by
-    simp only [collectM, pure_eq_ok, Except.ok.injEq] at h; subst h; simp [dataSum, weight]
-  | it :: rest, ts, h => by
-    simp only [collectM] at h
-    cases hx : pageItem data upper it with
-    | error e => rw [hx] at h; cases h
-    | ok r =>
-      rw [hx] at h
-      simp only [ok_bind] at h
-      cases hr : collectM (pageItem data upper) rest with
-      | error e => rw [hr] at h; cases h
-      | ok ts' =>
-        rw [hr] at h
-        simp only [ok_bind, pure_eq_ok, Except.ok.injEq] at h
-        have ih := collect_weight data hd upper rest ts' hr
-        cases r with
-        | none =>
-          have h2 : ts' = ts := h
-          subst h2
-          simp only [weight]; omega
-        | some t =>
-          have h2 : t :: ts' = ts := h
-          subst h2
-          have ⟨ha, hl⟩ := pageItem_some data hd upper it t hx
-          simp only [weight, ha, if_true, dataSum, List.map_cons, List.sum_cons] at ih ⊢
-          omega
 
 /-! ### pairwise disjoint intervals inside `[0, N)` have total length at most `N` -/
 
@@ -207,5 +176,140 @@ theorem weight_le_page (upper : Nat) (items : List ItemID) (hp : (items.filter (
     weight upper items ≤ 8192 :=
   weight_le upper 8192 items (fun it _ ha => by
     simp only [accepted, Bool.and_eq_true, decide_eq_true_eq] at ha; exact ha.2) hp
+
+theorem weight_append (upper : Nat) (xs ys : List ItemID) : weight upper (xs ++ ys) = weight upper xs + weight upper ys := by
+  induction xs with
+  | nil => simp [weight]
+  | cons x xs ih => simp only [List.cons_append, weight, ih]; omega
+
+/-- **What the guarded loop reports, plus what was claimed before, fits one page.**  `claimed` = accepted pointers with
+pairwise disjoint storage (the invariant of ParsePage's loop: it appends a pointer only when nothing claimed overlaps
+it); then the data of the tuples the loop still reports and the storage already claimed add up to at most 8192 bytes. -/
+theorem pageLoop_weight (data : Bytes) (hd : 8192 ≤ data.length) (upper : Nat) :
+    ∀ (items claimed : List ItemID) (ts : List HeapTuple), pageLoop data upper items claimed = .ok ts →
+      (∀ c ∈ claimed, accepted upper c = true) → claimed.Pairwise Disj →
+      dataSum ts + weight upper claimed ≤ 8192
+  | [], claimed, ts, h, hacc, hp => by
+    rw [pageLoop_nil] at h; cases h
+    have hf : claimed.filter (accepted upper) = claimed := List.filter_eq_self.mpr hacc
+    have := weight_le_page upper claimed (by rw [hf]; exact hp)
+    simp only [dataSum, List.map_nil, List.sum_nil]; omega
+  | it :: rest, claimed, ts, h, hacc, hp => by
+    cases hx : pageItemG data upper claimed it with
+    | error e => rw [pageLoop_cons_error _ _ _ _ _ e hx] at h; cases h
+    | ok r =>
+      cases r with
+      | none =>
+        rw [pageLoop_cons_none _ _ _ _ _ hx] at h
+        exact pageLoop_weight data hd upper rest claimed ts h hacc hp
+      | some t =>
+        rw [pageLoop_cons_some _ _ _ _ _ t hx] at h
+        cases hr : pageLoop data upper rest (claimed ++ [it]) with
+        | error e => rw [hr] at h; cases h
+        | ok ts' =>
+          rw [hr] at h
+          simp only [ok_bind, pure_eq_ok, Except.ok.injEq] at h
+          subst h
+          obtain ⟨hno, hitem⟩ := pageItemG_some _ _ _ _ _ hx
+          obtain ⟨ha, hl⟩ := pageItem_some data hd upper it t hitem
+          have hacc' : ∀ c ∈ claimed ++ [it], accepted upper c = true := by
+            intro c hc
+            rcases List.mem_append.mp hc with hc | hc
+            · exact hacc c hc
+            · rw [List.mem_singleton.mp hc]; exact ha
+          have hp' : (claimed ++ [it]).Pairwise Disj := by
+            rw [List.pairwise_append]
+            refine ⟨hp, List.pairwise_singleton _ _, ?_⟩
+            intro a ham b hb
+            rw [List.mem_singleton.mp hb]
+            exact (overlaps_false_iff it a).mp ((overlapsAny_false_iff claimed it).mp hno a ham)
+          have ih := pageLoop_weight data hd upper rest (claimed ++ [it]) ts' hr hacc' hp'
+          rw [weight_append] at ih
+          simp only [weight, ha, if_true, dataSum, List.map_cons, List.sum_cons, Nat.add_zero] at ih ⊢
+          omega
+
+/-- **One page reports at most one page of tuple data, for every byte string.** -/
+theorem parsePage_dataSum_le (data : Bytes) (ts : List HeapTuple) (hp : parsePage data = .ok ts) : dataSum ts ≤ 8192 := by
+  by_cases hl : data.length < 8192
+  · unfold parsePage at hp
+    simp only [hl, if_true] at hp
+    cases hp; simp [dataSum]
+  · have hd : 8192 ≤ data.length := by omega
+    cases hh : parseHeader data with
+    | error e => unfold parsePage at hp; rw [if_neg hl, hh] at hp; cases hp
+    | ok h =>
+      by_cases hv : validHeader h = true
+      · cases hi : parseItems data h.lower with
+        | error e =>
+          unfold parsePage at hp
+          rw [if_neg hl, hh] at hp
+          simp only [ok_bind, hv, Bool.not_true, Bool.false_eq_true, if_false, hi] at hp
+          cases hp
+        | ok items =>
+          rw [Isolation.parsePage_items data hd h hh hv items hi] at hp
+          have := pageLoop_weight data hd h.upper items [] ts hp (fun _ hc => by cases hc) List.Pairwise.nil
+          omega
+      · unfold parsePage at hp
+        rw [if_neg hl, hh] at hp
+        simp only [ok_bind, hv, Bool.not_false, if_true] at hp
+        cases hp; simp [dataSum]
+
+/-! ### the whole file -/
+
+def dataSumE (es : List TupleEntry) : Nat := (es.map fun e => e.tuple.data.length).sum
+
+theorem dataSum_filter_le (ts : List HeapTuple) (f : HeapTuple → Bool) : dataSum (ts.filter f) ≤ dataSum ts := by
+  induction ts with
+  | nil => simp
+  | cons t ts ih =>
+    simp only [List.filter_cons]
+    split
+    · simp only [dataSum, List.map_cons, List.sum_cons] at ih ⊢; omega
+    · simp only [dataSum, List.map_cons, List.sum_cons] at ih ⊢; omega
+
+theorem dataSumE_pageEntries (vis : Bool) (off : Nat) (ts : List HeapTuple) :
+    dataSumE (pageEntries vis off ts) = dataSum (ts.filter fun t => !vis || t.isVisible) := by
+  simp [dataSumE, pageEntries, dataSum, List.map_map, Function.comp_def]
+
+theorem dataSumE_append (a b : List TupleEntry) : dataSumE (a ++ b) = dataSumE a + dataSumE b := by
+  simp [dataSumE]
+
+/-- the scan from `off` on reports at most 8192 bytes of tuple data per whole page left -/
+theorem readTuplesFrom_dataSum_le (data : Bytes) (vis : Bool) :
+    ∀ (n off : Nat) (es : List TupleEntry), readTuplesFrom data vis n off = .ok es →
+      dataSumE es ≤ 8192 * ((data.length - off) / 8192)
+  | 0, _, es, h => by
+    simp only [readTuplesFrom, pure_eq_ok, Except.ok.injEq] at h; subst h; simp [dataSumE]
+  | n+1, off, es, h => by
+    rw [readTuplesFrom_succ] at h
+    by_cases hc : off + 8192 ≤ data.length
+    · rw [if_pos hc, slice_ok _ _ _ hc (by omega)] at h
+      simp only [ok_bind] at h
+      cases hp : parsePage ((data.take (off + 8192)).drop off) with
+      | error e => rw [hp] at h; cases h
+      | ok ts =>
+        rw [hp] at h
+        simp only [ok_bind] at h
+        cases hr : readTuplesFrom data vis n (off + 8192) with
+        | error e => rw [hr] at h; cases h
+        | ok rest =>
+          rw [hr] at h
+          simp only [ok_bind, pure_eq_ok, Except.ok.injEq] at h
+          subst h
+          have ih := readTuplesFrom_dataSum_le data vis n (off + 8192) rest hr
+          have h1 := parsePage_dataSum_le _ ts hp
+          have h2 := dataSum_filter_le ts (fun t => !vis || t.isVisible)
+          rw [dataSumE_append, dataSumE_pageEntries]
+          have hq : (data.length - off) / 8192 = (data.length - (off + 8192)) / 8192 + 1 := by omega
+          rw [hq, Nat.mul_add]
+          omega
+    · rw [if_neg hc] at h
+      simp only [pure_eq_ok, Except.ok.injEq] at h; subst h; simp [dataSumE]
+
+/-- **ReadTuples never reports more tuple data than the file holds**: at most 8192 bytes per whole page. -/
+theorem readTuples_dataSum_le (data : Bytes) (vis : Bool) (es : List TupleEntry) (h : readTuples data vis = .ok es) :
+    (es.map fun e => e.tuple.data.length).sum ≤ 8192 * (data.length / 8192) := by
+  have := readTuplesFrom_dataSum_le data vis _ 0 es h
+  simpa [dataSumE] using this
 
 end PgVerif.Proofs.PageSize
